@@ -405,4 +405,301 @@ def decryptOAEP (h mgf : HashAlg) (k : Priv) (ciphertext label : Bytes) : Res By
             if b0 = 0 ∧ lHash = lHash2 ∧ (rest.take idx).all (· == 0) then .ok (rest.drop (idx + 1))
             else .err
 
+
+/-! ### options structs (`PSSOptions`, `OAEPOptions`, `PKCS1v15DecryptOptions`) and the `crypto.Signer` /
+    `crypto.Decrypter` methods
+
+  Functions that need `crypto.Hash.New()` for a hash id return `Option`: `none` = the id has no implementation in
+  `ZV.Hash` (not modelled; the harness keeps such lines away from the model). -/
+
+/-- `*PSSOptions`; a nil pointer is `none : Option PSSOpts`. -/
+structure PSSOpts where
+  saltLength : Int
+  /-- `crypto.Hash` id, 0 = field not set -/
+  hash : Nat
+  deriving Repr, DecidableEq
+
+/-- `opts.saltLength()` (nil receiver: `PSSSaltLengthAuto`) -/
+def pssSaltLength : Option PSSOpts → Int
+  | none => 0
+  | some o => o.saltLength
+
+/-- the hash `SignPSS` works with: `if opts != nil && opts.Hash != 0 { hash = opts.Hash }` -/
+def signPSSHash (hash : Nat) : Option PSSOpts → Nat
+  | none => hash
+  | some o => if o.hash ≠ 0 then o.hash else hash
+
+/-- `SignPSS(rand, priv, hash, digest, opts)` -/
+def signPSSOpts (k : Priv) (hash : Nat) (digest : Bytes) (opts : Option PSSOpts) (rnd : Bytes) : Option (Res Bytes) :=
+  match hashAlg (signPSSHash hash opts) with
+  | none => none
+  | some h => some (signPSS k h digest (pssSaltLength opts) rnd)
+
+/-- `VerifyPSS(pub, hash, digest, sig, opts)`: only `opts.saltLength()` is read; `opts.Hash` is ignored (as crypto/rsa
+    documents), the hash is the positional argument. -/
+def verifyPSSOpts (pub : Pub) (hash : Nat) (digest sig : Bytes) (opts : Option PSSOpts) : Option (Res Unit) :=
+  match hashAlg hash with
+  | none => none
+  | some h => some (verifyPSS pub h digest sig (pssSaltLength opts))
+
+/-- the `crypto.SignerOpts` handed to `PrivateKey.Sign`: a `*PSSOptions` or a bare `crypto.Hash` -/
+inductive SignerOpts where
+  | pss (o : PSSOpts)
+  | hash (h : Nat)
+  deriving Repr, DecidableEq
+
+/-- `(*PrivateKey).Sign(rand, digest, opts)` -/
+def privSign (k : Priv) (digest : Bytes) (opts : SignerOpts) (rnd : Bytes) : Option (Res Bytes) :=
+  match opts with
+  | .pss o => signPSSOpts k o.hash digest (some o) rnd
+  | .hash h => some (signPKCS1v15 k h digest)
+
+/-- the unexported `decryptPKCS1v15`: `(valid, em, index)` -/
+def decryptPKCS1v15Core (k : Priv) (ciphertext : Bytes) : Res (Bool × Bytes × Nat) :=
+  if sizeBytes k.n < 11 then .err
+  else match decrypt k ciphertext false with
+    | .err => .err
+    | .panic => .panic
+    | .ok em =>
+      match em with
+      | b0 :: b1 :: _ =>
+        (match firstZeroFrom2 em with
+         | none => .ok (false, em, 0)
+         | some idx => if b0 = 0 ∧ b1 = 2 ∧ 10 ≤ idx then .ok (true, em, idx + 1) else .ok (false, em, 0))
+      | _ => .panic
+
+/-- `DecryptPKCS1v15SessionKey(random, priv, ciphertext, key)`: the contents of `key` afterwards -/
+def decryptSessionKey (k : Priv) (ciphertext key : Bytes) : Res Bytes :=
+  match checkPub k.pub with
+  | .err => .err
+  | .panic => .panic
+  | .ok _ =>
+    let kk := sizeBytes k.n
+    if (kk : Int) - ((key.length : Int) + 3 + 8) < 0 then .err
+    else match decryptPKCS1v15Core k ciphertext with
+      | .err => .err
+      | .panic => .panic
+      | .ok (valid, em, index) =>
+        if em.length ≠ kk then .err
+        else if valid ∧ em.length - index = key.length then .ok (em.drop (em.length - key.length))
+        else .ok key
+
+/-- `io.ReadFull(r, buf)` with `len(buf) = n` on a reader that still holds `rnd`: the bytes (`none` = error) and what
+    the reader holds afterwards (a short read drains it). -/
+def readFull (n : Nat) (rnd : Bytes) : Option Bytes × Bytes :=
+  if rnd.length < n then (none, []) else (some (rnd.take n), rnd.drop n)
+
+/-- the `crypto.DecrypterOpts` handed to `PrivateKey.Decrypt` -/
+inductive DecOpts where
+  | nil
+  | oaep (hash mgfHash : Nat) (label : Bytes)
+  | v15 (sessionKeyLen : Int)
+  | other
+  deriving Repr, DecidableEq
+
+/-- `(*PrivateKey).Decrypt(rand, ciphertext, opts)`: result and what the reader holds afterwards -/
+def privDecrypt (k : Priv) (rnd ciphertext : Bytes) (opts : DecOpts) : Option (Res Bytes × Bytes) :=
+  match opts with
+  | .nil => some (decryptPKCS1v15 k ciphertext, rnd)
+  | .oaep hash mgfHash label =>
+    (match hashAlg hash, hashAlg (if mgfHash = 0 then hash else mgfHash) with
+     | some h, some mgf => some (decryptOAEP h mgf k ciphertext label, rnd)
+     | _, _ => none)
+  | .v15 l =>
+    if l > 0 then
+      (match readFull l.toNat rnd with
+       | (none, rnd') => some (.err, rnd')
+       | (some key, rnd') =>
+         (match decryptSessionKey k ciphertext key with
+          | .err => some (.err, rnd')
+          | .panic => some (.panic, rnd')
+          | .ok key' => some (.ok key', rnd')))
+    else some (decryptPKCS1v15 k ciphertext, rnd)
+  | .other => some (.err, rnd)
+
+/-! ### stateful arguments: one `hash.Hash`, one `io.Reader`, one key object through a sequence of calls
+
+  The caller-owned `hash.Hash` handed to the OAEP functions is modelled by the bytes written to it since its last
+  `Reset` (`pend`); the reader by the bytes it still holds. -/
+
+/-- `nonZeroRandomBytes` with the reader's remaining bytes -/
+def fixZerosR : Bytes → Bytes → Option Bytes × Bytes
+  | [], rnd => (some [], rnd)
+  | b :: bs, rnd =>
+    if b = 0 then
+      match redraw rnd with
+      | none => (none, [])
+      | some (b', rnd') => let r := fixZerosR bs rnd'; (r.1.map (b' :: ·), r.2)
+    else let r := fixZerosR bs rnd; (r.1.map (b :: ·), r.2)
+
+def nonZeroRandomBytesR (n : Nat) (rnd : Bytes) : Option Bytes × Bytes :=
+  if rnd.length < n then (none, []) else fixZerosR (rnd.take n) (rnd.drop n)
+
+/-- `EncryptPKCS1v15` with the reader's remaining bytes -/
+def encryptPKCS1v15R (pub : Pub) (rnd msg : Bytes) : Res Bytes × Bytes :=
+  match checkPub pub with
+  | .err => (.err, rnd)
+  | .panic => (.panic, rnd)
+  | .ok (n, e) =>
+    let k := sizeBytes n
+    if (msg.length : Int) > (k : Int) - 11 then (.err, rnd)
+    else match nonZeroRandomBytesR (k - msg.length - 3) rnd with
+      | (none, rnd') => (.err, rnd')
+      | (some ps, rnd') => (encrypt n e (0 :: 2 :: (ps ++ (0 :: msg))), rnd')
+
+/-- `SignPSS` with the reader's remaining bytes -/
+def signPSSR (k : Priv) (h : HashAlg) (digest : Bytes) (saltLength : Int) (rnd : Bytes) : Res Bytes × Bytes :=
+  let sl : Res Nat :=
+    if saltLength = 0 then
+      let v : Int := (((bitLen k.n - 1 + 7) / 8 : Nat) : Int) - 2 - (h.outSize : Int)
+      if v < 0 then .err else .ok v.toNat
+    else if saltLength = -1 then .ok h.outSize
+    else if saltLength ≤ 0 then .err
+    else .ok saltLength.toNat
+  match sl with
+  | .err => (.err, rnd)
+  | .panic => (.panic, rnd)
+  | .ok sl =>
+    match readFull sl rnd with
+    | (none, rnd') => (.err, rnd')
+    | (some salt, rnd') => (signPSSWithSalt k h digest salt, rnd')
+
+/-- `EncryptOAEP(hash, random, pub, msg, label)` on a caller-owned hash with `pend` written to it:
+    (result, hash state afterwards, reader afterwards).  The function starts with `hash.Reset()` (after `checkPub`)
+    and every path after that leaves the hash reset: the length check comes BEFORE `hash.Write(label)`, `Sum` is
+    followed by `Reset`, and `mgf1XOR` resets after every block. -/
+def encryptOAEPSt (h : HashAlg) (pend : Bytes) (pub : Pub) (rnd msg label : Bytes) : Res Bytes × Bytes × Bytes :=
+  match checkPub pub with
+  | .err => (.err, pend, rnd)
+  | .panic => (.panic, pend, rnd)
+  | .ok (n, e) =>
+    let k := sizeBytes n
+    let hLen := h.outSize
+    if (msg.length : Int) > (k : Int) - 2 * (hLen : Int) - 2 then (.err, [], rnd)
+    else
+      let lHash := h.hash label
+      let db := lHash ++ List.replicate (k - 2 * hLen - 2 - msg.length) 0 ++ (1 :: msg)
+      match readFull hLen rnd with
+      | (none, rnd') => (.err, [], rnd')
+      | (some seed, rnd') =>
+        let db' := mgf1XOR h db seed
+        let seed' := mgf1XOR h seed db'
+        (encrypt n e (0 :: (seed' ++ db')), [], rnd')
+
+/-- `DecryptOAEP(hash, random, priv, ciphertext, label)` on a caller-owned hash with `pend` written to it.
+    There is NO `Reset` before `hash.Write(label)`: the label hash is taken over `pend ++ label` (crypto/rsa of
+    Go 1.25 resets first), so the function relies on every earlier call having left the hash reset.  The three
+    early returns leave the hash untouched; after `Sum` it is reset. -/
+def decryptOAEPSt (h : HashAlg) (pend : Bytes) (k : Priv) (ciphertext label : Bytes) : Res Bytes × Bytes :=
+  match checkPub k.pub with
+  | .err => (.err, pend)
+  | .panic => (.panic, pend)
+  | .ok _ =>
+    let kk := sizeBytes k.n
+    let hLen := h.outSize
+    if ciphertext.length > kk ∨ kk < hLen * 2 + 2 then (.err, pend)
+    else match decrypt k ciphertext false with
+      | .err => (.err, pend)
+      | .panic => (.panic, pend)
+      | .ok em =>
+        let lHash := h.hash (pend ++ label)
+        match em with
+        | [] => (.panic, [])
+        | b0 :: body =>
+          let seed := body.take hLen
+          let db := body.drop hLen
+          let seed' := mgf1XOR h seed db
+          let db' := mgf1XOR h db seed'
+          let lHash2 := db'.take hLen
+          let rest := db'.drop hLen
+          match rest.findIdx? (· == 1) with
+          | none => (.err, [])
+          | some idx =>
+            if b0 = 0 ∧ lHash = lHash2 ∧ (rest.take idx).all (· == 0) then (.ok (rest.drop (idx + 1)), [])
+            else (.err, [])
+
+/-- one call of a sequence -/
+inductive Step where
+  | encOAEP (msg label : Bytes)                        -- EncryptOAEP(H, R, &key.PublicKey, msg, label)
+  | decOAEP (ct label : Bytes)                         -- DecryptOAEP(H, nil, key, ct, label)
+  | encV15 (msg : Bytes)                               -- EncryptPKCS1v15(R, &key.PublicKey, msg)
+  | decV15 (ct : Bytes)                                -- DecryptPKCS1v15(nil, key, ct)
+  | sessKey (ct key : Bytes)                           -- DecryptPKCS1v15SessionKey(nil, key, ct, keybuf)
+  | keyDecrypt (ct : Bytes) (opts : DecOpts)           -- key.Decrypt(R, ct, opts)
+  | signPSS (hash : Nat) (digest : Bytes) (opts : Option PSSOpts)        -- SignPSS(R, key, hash, digest, opts)
+  | verifyPSS (hash : Nat) (digest sig : Bytes) (opts : Option PSSOpts)  -- VerifyPSS(&key.PublicKey, …)
+  | signV15 (hash : Nat) (digest : Bytes)              -- SignPKCS1v15(nil, key, hash, digest)
+  | verifyV15 (hash : Nat) (digest sig : Bytes)        -- VerifyPKCS1v15(&key.PublicKey, …)
+  | keySign (digest : Bytes) (opts : SignerOpts)       -- key.Sign(R, digest, opts)
+  | precompute (qinv : Nat)                            -- key.Precompute(); qinv = ModInverse(Primes[1], Primes[0])
+  | hashWrite (b : Bytes)                              -- the CALLER writes to H between two calls
+  deriving Repr
+
+/-- the three stateful arguments -/
+structure SeqState where
+  key : Priv
+  pend : Bytes
+  rnd : Bytes
+
+def unitBytes : Res Unit → Res Bytes
+  | .ok _ => .ok []
+  | .err => .err
+  | .panic => .panic
+
+/-- `Precompute` on the key object: fills `Dp, Dq, Qinv` unless they are already there (`decrypt` takes its CRT
+    branch only for two primes). -/
+def precomputeKey (k : Priv) (qinv : Nat) : Priv :=
+  match k.pre, k.primes with
+  | none, p :: q :: _ => { k with pre := some (precompute k.d p q qinv) }
+  | _, _ => k
+
+/-- one call: its result and the state it leaves (`none`: a hash id without implementation in `ZV.Hash`) -/
+def step (h : HashAlg) (st : SeqState) : Step → Option (Res Bytes × SeqState)
+  | .encOAEP msg label =>
+    let r := encryptOAEPSt h st.pend st.key.pub st.rnd msg label
+    some (r.1, { st with pend := r.2.1, rnd := r.2.2 })
+  | .decOAEP ct label =>
+    let r := decryptOAEPSt h st.pend st.key ct label
+    some (r.1, { st with pend := r.2 })
+  | .encV15 msg =>
+    let r := encryptPKCS1v15R st.key.pub st.rnd msg
+    some (r.1, { st with rnd := r.2 })
+  | .decV15 ct => some (decryptPKCS1v15 st.key ct, st)
+  | .sessKey ct key => some (decryptSessionKey st.key ct key, st)
+  | .keyDecrypt ct opts =>
+    (match privDecrypt st.key st.rnd ct opts with
+     | none => none
+     | some (r, rnd') => some (r, { st with rnd := rnd' }))
+  | .signPSS hash digest opts =>
+    (match hashAlg (signPSSHash hash opts) with
+     | none => none
+     | some ha =>
+       let r := signPSSR st.key ha digest (pssSaltLength opts) st.rnd
+       some (r.1, { st with rnd := r.2 }))
+  | .verifyPSS hash digest sig opts =>
+    (match verifyPSSOpts st.key.pub hash digest sig opts with
+     | none => none
+     | some r => some (unitBytes r, st))
+  | .signV15 hash digest => some (signPKCS1v15 st.key hash digest, st)
+  | .verifyV15 hash digest sig => some (unitBytes (verifyPKCS1v15 st.key.pub hash digest sig), st)
+  | .keySign digest opts =>
+    (match opts with
+     | .hash hid => some (signPKCS1v15 st.key hid digest, st)
+     | .pss o =>
+       (match hashAlg (signPSSHash o.hash (some o)) with
+        | none => none
+        | some ha =>
+          let r := signPSSR st.key ha digest o.saltLength st.rnd
+          some (r.1, { st with rnd := r.2 })))
+  | .precompute qinv => some (.ok [], { st with key := precomputeKey st.key qinv })
+  | .hashWrite b => some (.ok [], { st with pend := st.pend ++ b })
+
+/-- the whole sequence: the results of the calls in order -/
+def runSeq (h : HashAlg) : SeqState → List Step → Option (List (Res Bytes))
+  | _, [] => some []
+  | st, s :: rest =>
+    match step h st s with
+    | none => none
+    | some (r, st') => (runSeq h st' rest).map (r :: ·)
+
 end ZV.C23
